@@ -473,7 +473,7 @@ impl<'a> Lexer<'a> {
             // (nothing for an empty source).
             // See: https://github.com/zkat/miette/issues/219
             let source = self.0.source();
-            let mut start = span.start.saturating_sub(1);
+            let mut start = span.end.saturating_sub(1);
             while !source.is_char_boundary(start) {
                 start -= 1;
             }
